@@ -199,6 +199,9 @@ def check(ctx):
         ctx.ob("FILL", r, norm(geo[0]), geo[0], ok, "every feature's geometry object is kept unchanged (null included)" if ok else
                "geometries are filtered or transformed while reading", clause="the geometry objects unchanged in a geometry column")
     sd = [c for f, c in calls_in(r) if isinstance(c.func, ast.Attribute) and c.func.attr == "setdefault"]
+    if not sd:
+        raise AnalysisError("GeoJSON.read no longer collects its property columns with data.setdefault(key, []) over the features: "
+                            "the column assembly was rewritten; FILL cannot read it")
     ok = bool(sd) and any(_inside(r, c, fl) for c in sd for fl in floops)
     ctx.ob("FILL", r, "data.setdefault(key, []) for every key of every feature", sd[0] if sd else r.node, ok,
            "columns are the union of property keys over all features" if ok else
